@@ -98,6 +98,36 @@ STATIC_3 = '''### 10.4 Rules that were dropped or narrowed because they demanded
   is annotated on line 1 even when that line is a comment (C35); further shapes the seed parser drops - lambda statements,
   `pytest.raises` of non-builtin, non-SUT exceptions, repeated assertions on one object that move to the binding statement
   (C24, next to the five listed known findings).
+* Session 5: further shape rules that fired on corrected code were replaced.  `C08.sources` [_is_main / _is_type_checking] and
+  `C08.priority` [all-enclosing] became cases of `C08.pipeline` (the exclusion pipeline interpreted end to end over small
+  modules); the `remaining.remove(element)` part of `C14.front-shape` became `C14.assignment` (the whole ranking assignment
+  interpreted over populations with structurally equal individuals); `C18.exc-import` [record] no longer matches
+  `cst.Name(<x>.__name__)` but evaluates the writer's own reference / import expressions over a top-level, a nested and a
+  function-local exception class; `C22.protected` inlines predicate helpers (a guard that moved into `_is_protected(...)`
+  establishes the same literals).  `C04.complement`'s table now demands `_gt` / `_ge` on (value1, value2) for `>` / `>=`:
+  the former reflected form is a finding (partial rich-comparison protocols).
+* Seed C04-e was retired: after repair 2663f31 every string / bytes distance of a comparison that does not hold is kept
+  positive, which makes the seeded lossy decoding harmless.  Seeds C19-d / C19-f were re-targeted after repair 0ec8b5b
+  (their assertion is now carried by a later statement).  C22-f was never filed: it makes an existing integration test fail
+  in 4 of 6 runs.
+* Alpha-equivalence: on load every function whose shape (locals erased) equals the reference recorded in
+  `sa/alpha_reference.json` has its locals renamed back to the recorded names, so rules that still name a local are
+  immune to pure renamings (metamorphic test: ~3800 locals renamed, all checks silent).  The reference is regenerated
+  after every repair (`tools/gen_alpha_reference.py`).
+* Observed on the unchanged tree in session 5, outside what the registered rules decide and not repaired: the tracer still
+  evaluates user operators in addition to the module under test (`__bool__` twice, `__eq__` up to three times; a
+  stateful `__bool__` can make the recorded outcome differ from the one taken) and the `in` fallback iterates arbitrary
+  iterables (C01/C03/C04; needs instrumentation that evaluates once and hands the result on); the STORE_NAME / STORE_ATTR
+  probes of the CHECKED instrumentation re-read the stored name / attribute (C01); a generator's code object counts as
+  executed when the generator is created (C03); `x in <iterator>` records nothing (C03; chosen so as not to consume the
+  iterator); MIO's tie rule is `<=` (C13); only-cover of `K.m` also makes the class body lines of K line goals, a marker
+  on a decorator line or a `with` header excludes only that line (C08); the slicer's stack simulation loses `__slots__`
+  instances, subscript keys, attribute chains and chained comparisons (C09; outside the supported fragment);
+  `TestSuiteMutation.mutate` drops empty tests without raising the changed flag (C12; pinned by an existing test);
+  `append_test_case_from` does not rename assertion sources and insertion only tests the length before each step (C15;
+  assertions do not exist while crossover runs); asserted dicts are rendered in insertion order (C16; the order comes
+  from the module under test); expected exceptions count as kills in the mutation summary (C21); `OrderedSet.__eq__` is
+  order-sensitive, so merged traces compare unequal although their sets are equal (C11; the join itself commutes).
 * Inlined comprehensions and in-place container construction (`LIST_APPEND`, `MAP_ADD`) are outside what
   the slicer's stack simulation models (`ys = [x * k for x in xs]` does not pull in the definitions of
   `xs` and `k`); the property restricts completeness to the supported fragment, so this is recorded
